@@ -109,6 +109,28 @@ fn judge_reg(c: &rc::Circuit, rng: &mut Rng, counts: &mut Counts) -> (bool, Opti
 pub fn run(ctx: &Ctx) -> i32 {
     let mut programs: Vec<(String, String)> = corpus::load();
     programs.extend(super::c04_op_programs().into_iter().enumerate().map(|(i, p)| (format!("op-program-{i}"), p)));
+    // signatures with zero-sized parameters in every position (single, first, middle, last, inside a
+    // single array parameter): the compiler either refuses them or produces a circuit that validates
+    {
+        let zst = ["[bool; 0]", "[u8; 0]", "Z", "[Z; 2]", "[[bool; 0]; 2]", "([u8; 0], Z)", "[(Z, [u16; 0]); 3]"];
+        let sized = ["u8", "bool", "[u8; 2]", "(u8, Z)"];
+        let mut k = 0;
+        let mut push = |params: Vec<&str>| {
+            k += 1;
+            let ps: Vec<String> = params.iter().enumerate().map(|(i, t)| format!("p{i}: {t}")).collect();
+            programs.push((format!("crafted-zero-sized-parameters-{k}"), format!("struct Z {{}}\npub fn main({}) -> bool {{ true }}\n", ps.join(", "))));
+        };
+        for z in zst {
+            push(vec![z]);
+            push(vec![z, z]);
+            for sz in sized {
+                push(vec![z, sz]);
+                push(vec![sz, z]);
+                push(vec![sz, z, sz]);
+                push(vec![z, sz, z]);
+            }
+        }
+    }
     let results = par(WORKERS, |w| {
         let mut rng = Rng::derive(ctx.seed, 0x1600 + w as u64);
         let mut counts = Counts::default();
